@@ -50,7 +50,7 @@ Step ==
        [] ev = "result_stored" ->
             /\ stored' = Put(stored, r.task, r.t)
             /\ UNCHANGED <<scen, ntasks, accepted, ran, ranOk, runEnd, twice, stopOkAt, hung, stopped, sleepB, sleepE, nviol>>
-       [] ev \in {"task_run_b", "task_skip", "submitted"} ->
+       [] ev \in {"task_run_b", "task_skip", "submitted", "bad_spawn"} ->
             UNCHANGED <<scen, ntasks, accepted, ran, ranOk, runEnd, stored, twice, stopOkAt, hung, stopped, sleepB, sleepE, nviol>>
        [] ev = "sleep_b" ->
             /\ sleepB' = sleepB + 1
